@@ -17,6 +17,7 @@ from common import Check, Driver, Infra, VERIF, sarpy_guard
 import segtree
 import c01complete
 import segmodel
+import nitfasm
 
 sys.path.insert(0, os.path.join(VERIF, 'translate'))
 
@@ -605,11 +606,6 @@ def classify(f):
     if f.get('kind') not in ('tree', 'write'):
         return None
     msg = f['msg']
-    nodes = _nodes(f['tree'])
-    # a block definition with step -1: _find_slice_overlap calls _reverse_slice on a slice of step +1
-    if 'only applicable to slices with negative step' in msg and \
-            any(n['kind'] == 'blocks' and any(x[2] == -1 for a in n['arrangement'] for x in a) for n in nodes):
-        return 'block-reversed-definition'
     kept = _complex_kept_leaves(f['tree'])
     if kept and ('refused' in msg or 'raised' in msg) and 'Slicing along the complex dimension' in msg:
         return 'complex-kept-band-nonunit-step'
@@ -619,13 +615,6 @@ def classify(f):
             raw_axis = leaf['trans'][bd] if leaf.get('trans') is not None else bd
             if leaf.get('rev') and raw_axis in leaf['rev']:
                 return 'complex-kept-band-reversed-band-axis'
-    # raw-basis subset over a parent with a complex / LUT format function: transform_raw_slice of those classes
-    for n in nodes:
-        if n['kind'] == 'subset' and n.get('basis') == 'raw' and n['parent'].get('fmt'):
-            return 'complex-transform-raw-slice' if n['parent']['fmt']['kind'] == 'complex' else 'lut-transform-raw-slice'
-    # 2-d lookup table: SingleLUTFormatFunction.__call__ is handed the raw subscript
-    if any(n.get('fmt') and n['fmt']['kind'] == 'lut' and isinstance(n['fmt']['table'][0], list) for n in nodes):
-        return 'lut-2d-raw-subscript'
     return None
 
 
@@ -637,9 +626,11 @@ def run(tier):
     gen_info = gen_slices.generate(os.path.join(VERIF, 'lean', 'SarpyModel', 'Gen', 'Slices.lean'))
     if gen_info['unsupported']:
         gen_info['note'] = 'translator could not express: ' + json.dumps(gen_info['unsupported'])
-    broken = chk.prove(['SarpyModel.Props.C01', 'SarpyModel.Props.C01Nd', 'SarpyModel.Props.C01Complete', segmodel.SEG_MODULE, 'SarpyModel.Drivers'], 'SarpyModel.Props.C01Complete', 'Sarpy.Props.C01', REQUIRED, gen_info)
+    nitfasm.regenerate(chk)          # Gen/NitfOrient.lean: the NITF reader's orientation tables, from the current source
+    broken = chk.prove(['SarpyModel.Props.C01', 'SarpyModel.Props.C01Nd', 'SarpyModel.Props.C01Complete', segmodel.SEG_MODULE, nitfasm.NITF_MODULE, 'SarpyModel.Drivers'], 'SarpyModel.Props.C01Complete', 'Sarpy.Props.C01', REQUIRED, gen_info)
     if not broken:
         segmodel.obligations_reads(chk, broken)      # Props/C01Seg.lean: segment trees as index maps, read = select(full)
+        nitfasm.obligations(chk, broken)             # Props/C01Nitf.lean: how the NITF reader builds those trees from subheader fields
 
     # ---- correspondence: kernels three-way (python / Gen / Spec) and numpy-spec validation
     disagreements = []
@@ -656,6 +647,7 @@ def run(tier):
         ccs = c01complete.supported_oracle_cases(rng, tier)
         ccq = c01complete.enqueue(drv, ccs)
         seg_plan = segmodel.plan_reads(drv, rng, tier)
+        nitf_plan = nitfasm.plan(drv, rng, tier)
         ans = drv.run()
     except Infra as e:
         drv_ok = False
@@ -735,7 +727,9 @@ def run(tier):
                 case = json.load(open(os.path.join(corpus, fn)))
                 if case.get('kind') == 'tree':
                     ncorp += 1
+                    n0 = len(fails)
                     check_tree(case['tree'], [case['sub']], tmpdir, fails, stats)
+                    del fails[n0 + 1:]          # one report per corpus case
         ntrees = 150 if tier == 'quick' else 2500
         per = 14 if tier == 'quick' else 30
         for _ in range(ntrees):
@@ -764,6 +758,11 @@ def run(tier):
                 subs = ([['tuple'] + [list(x) for x in dsg['sub']]] if dsg.get('sub') else [None]) + \
                     [rand_subscript(rng, shape) for _ in range(20)]
                 check_tree(dsg['tree'], subs, tmpdir, fails, stats)
+        nitf_dis, nitf_fails, nitf_stats = nitfasm.check(nitf_plan if drv_ok else nitfasm.plan(None, rng, tier), ans, tmpdir)
+        disagreements += nitf_dis
+        fails += nitf_fails
+        evaluations += nitf_stats.get('reads', 0)
+        chk.coverage['nitf_assembly'] = nitf_stats
         if tier == 'thorough':
             exhaustive_small(fails, stats, tmpdir)
     finally:
@@ -794,13 +793,13 @@ def run(tier):
         'mirror of data_segment.py / format_function.py (no translator); it is tied to the code by the provenance correspondence of this run '
         '(array / memmap / file-read leaves, reverse + transpose, ReorientationSegment, subsets with and without squeezed axes in the formatted '
         'basis and, over identity-format parents, in the raw basis, band and block aggregates with holes and with block definitions of step -1, '
-        'ComplexFormatFunction IQ/QI/MP/PM with the band axis collapsed or kept, SingleLUTFormatFunction with a 1-d table); the theorem holds on '
+        'ComplexFormatFunction IQ/QI/MP/PM with the band axis collapsed or kept, SingleLUTFormatFunction with a 1-d or 2-d table); the theorem holds on '
         'the set of subscripts the code serves (Seg.accepts, also executed by the correspondence: a refusal of the code must be a refusal of '
         'the model and vice versa); MP/PM and LUT pixel values are named functions of the stored samples in the theorem (numerics: C08) and are '
-        'tied by value with a tolerance; raw-basis subsets over subsets / complex / LUT parents and 2-d lookup tables are tied by the numpy '
-        'oracle only (listed defects)',
+        'tied by value with a tolerance; raw-basis subsets over subsets / complex / LUT parents are tied by the numpy oracle only; block '
+        'definitions of step -1 and 2-d lookup tables are modelled as the repaired code serves them (patches F1, F5 of NOTES_SEGFIX)',
         'JPEG/JPEG2000/HDF5 segments outside the model',
-    ]
+    ] + nitfasm.ASSUMPTIONS
 
     # ---- decide
     all_fail = oracle_fail + fails
@@ -861,6 +860,8 @@ def replay(path):
         m = c01complete.replay_case(case['case'])
         print('completeness oracle:', m)
         return 1 if m else 0
+    if case['kind'] == 'nitf':
+        return nitfasm.replay_case(case)
     if case['kind'] == 'kernel':
         m = kernel_oracle(tuple(tuple(x) if isinstance(x, list) else x for x in case['case']))
         print('kernel oracle:', m)
